@@ -299,4 +299,446 @@ theorem recordTraceE_exit_W (cfg : ECfg) (retv : Bool) (X : EFrame) (rest : List
       takeAsync_all _ t1 hall, owed, flushBelowE]
     simp [ht1]
 
+
+/-! ### the hooks with watchpoints, no filter, no time threshold -/
+
+structure PlainW (cfg : ECfg) : Prop where
+  t : PlainT cfg
+  thr : cfg.base.threshold = 0
+
+/-- the state between hooks at depth `d`; `tl` = time of the last hook -/
+structure GoodW (s : ESt) (d tl : Nat) : Prop where
+  b : GoodB s d
+  starts : ∀ g ∈ s.frames, g.b.start ≤ tl
+  ptime : ∀ e ∈ s.pend, e.time ≤ tl + 1
+  pidx : ∀ e ∈ s.pend, e.idx < ASYNC_IDX
+
+/-- the events a hook's save_watchpoint yields in watch state `w` (with room for them) -/
+def wEvents (cfg : ECfg) (w : ESt) (b : Frame) (ri : Nat) (o : Obs) : List Ev :=
+  (watchStep cfg { w with pend := [] } b ri o).pend
+/-- … and the watch state afterwards -/
+def wNext (cfg : ECfg) (w : ESt) (b : Frame) (ri : Nat) (o : Obs) : ESt :=
+  watchStep cfg { w with pend := [] } b ri o
+
+theorem nsrc_room (cfg : ECfg) (n : Nat) (h : n + nsrc cfg ≤ MAX_EVENT) : ([] : List Ev).length + nsrc cfg ≤ MAX_EVENT := by
+  simp; omega
+
+theorem wEvents_time (cfg : ECfg) (w : ESt) (b : Frame) (ri : Nat) (o : Obs) :
+    ∀ e ∈ wEvents cfg w b ri o, e.time = watchTime b w.winited ∧ e.idx = watchTag cfg ri := by
+  obtain ⟨_, W, hW, hWe⟩ := watchStep_spec cfg { w with pend := [] } b ri o
+  intro e he
+  unfold wEvents at he
+  rw [hW] at he
+  simp only [List.nil_append] at he
+  exact ⟨(hWe e he).1, (hWe e he).2.1⟩
+
+theorem wEvents_nowatch (cfg : ECfg) (w : ESt) (b : Frame) (ri : Nat) (o : Obs) (h : cfg.watch = false) :
+    wEvents cfg w b ri o = [] := by
+  simp [wEvents, watchStep, h]
+
+theorem watchStep_winited (cfg : ECfg) (s : ESt) (b : Frame) (ri : Nat) (o : Obs) (h : cfg.watch = true) :
+    (watchStep cfg s b ri o).winited = true := by
+  unfold watchStep
+  simp only [h, ↓reduceIte]
+  exact (saveWatch_spec cfg s b ri o).2.1
+
+theorem entryE_W (cfg : ECfg) (hp : PlainW cfg) (k : Kind) (s w : ESt) (d tl f t0 : Nat) (o : Obs)
+    (hg : GoodW s d tl) (hsw : SameWatch s w) (hm : d < cfg.base.maxStack) (hd : d < cfg.base.depthOpt)
+    (ht : tl + 2 ≤ t0) (hroom : s.pend.length + nsrc cfg ≤ MAX_EVENT) :
+    (entryE cfg k s f t0 o).2 = true ∧
+    (entryE cfg k s f t0 o).1.out = s.out ∧
+    (entryE cfg k s f t0 o).1.frames = entryFrame cfg k f t0 d o :: s.frames ∧
+    (entryE cfg k s f t0 o).1.pend = s.pend ++ wEvents cfg w (entryFrame cfg k f t0 d o).b d o ∧
+    SameWatch (entryE cfg k s f t0 o).1 (wNext cfg w (entryFrame cfg k f t0 d o).b d o) ∧
+    GoodW (entryE cfg k s f t0 o).1 (d + 1) t0 ∧
+    (cfg.watch = true → (entryE cfg k s f t0 o).1.winited = true) := by
+  have hB := hg.b
+  have hmax := hp.t.maxs
+  have hlen := hB.len
+  subst hlen
+  rw [entryE_T_unfold cfg hp.t k s s.frames.length f t0 o hB hm hd]
+  have hFb := entryFrame_b cfg k f t0 s.frames.length o
+  have hpa : ∀ e ∈ (entryBase s s.frames.length { b := { addr := f, start := t0, depth := s.frames.length, cyg := k == .cyg } }).pend,
+      e.idx < ASYNC_IDX := hg.pidx
+  have htag : watchTag cfg s.frames.length < ASYNC_IDX := by unfold watchTag; split <;> omega
+  rw [entryFinish_eq cfg _ (entryFrame cfg k f t0 s.frames.length o) s.frames o hpa htag]
+  obtain ⟨W, a1, a2, a3⟩ := watchStep_room cfg
+    (entryBase s s.frames.length { b := { addr := f, start := t0, depth := s.frames.length, cyg := k == .cyg } })
+    { w with pend := [] } (entryFrame cfg k f t0 s.frames.length o).b s.frames.length o
+    ⟨hsw.1, hsw.2, hsw.3, hsw.4⟩ hroom (nsrc_room cfg _ hroom)
+  obtain ⟨hs, _⟩ := watchStep_spec cfg
+    (entryBase s s.frames.length { b := { addr := f, start := t0, depth := s.frames.length, cyg := k == .cyg } })
+    (entryFrame cfg k f t0 s.frames.length o).b s.frames.length o
+  have a1' : (watchStep cfg
+      (entryBase s s.frames.length { b := { addr := f, start := t0, depth := s.frames.length, cyg := k == .cyg } })
+      (entryFrame cfg k f t0 s.frames.length o).b s.frames.length o).pend = s.pend ++ W := a1
+  have hWE : wEvents cfg w (entryFrame cfg k f t0 s.frames.length o).b s.frames.length o = W := by
+    unfold wEvents; rw [a2]; rfl
+  have hWt := wEvents_time cfg w (entryFrame cfg k f t0 s.frames.length o).b s.frames.length o
+  have hwt0 : ∀ b : Bool, watchTime (entryFrame cfg k f t0 s.frames.length o).b b ≤ t0 + 1 := by
+    intro b; rw [hFb]; cases b <;> simp [watchTime, hookTime, plainFrame] <;> omega
+  have hmem : ∀ e ∈ (watchStep cfg
+      (entryBase s s.frames.length { b := { addr := f, start := t0, depth := s.frames.length, cyg := k == .cyg } })
+      (entryFrame cfg k f t0 s.frames.length o).b s.frames.length o).pend,
+      e ∈ s.pend ∨ e ∈ wEvents cfg w (entryFrame cfg k f t0 s.frames.length o).b s.frames.length o := by
+    intro e he
+    rw [a1', ← hWE] at he
+    simpa using he
+  refine ⟨rfl, hs.out, rfl, a1'.trans (by rw [hWE]), ⟨a3.1, a3.2, a3.3, a3.4⟩, ?_, ?_⟩
+  · refine ⟨⟨hs.over.trans hB.over, by simp, hs.recordIdx, hs.enabled, ?_, ?_, ?_, ?_, ?_, ?_, ?_⟩, ?_, ?_, ?_⟩
+    · exact (congrArg Filt.inCount hs.filt)
+    · exact (congrArg Filt.outCount hs.filt)
+    · exact (congrArg Filt.depth hs.filt)
+    · exact (congrArg Filt.maxDepth hs.filt)
+    · exact (congrArg Filt.time hs.filt)
+    · exact (congrArg Filt.size hs.filt)
+    · intro g hg'
+      simp only [List.mem_cons] at hg'
+      rcases hg' with rfl | hg'
+      · rw [hFb]; simp [plainFrame]
+      · exact hB.noskip g hg'
+    · intro g hg'
+      simp only [List.mem_cons] at hg'
+      rcases hg' with rfl | hg'
+      · rw [hFb]; simp [plainFrame]
+      · have := hg.starts g hg'; omega
+    · intro e he
+      rcases hmem e he with h | h
+      · have := hg.ptime e h; omega
+      · rw [(hWt e h).1]; exact hwt0 _
+    · intro e he
+      rcases hmem e he with h | h
+      · exact hg.pidx e h
+      · rw [(hWt e h).2]; unfold watchTag; split <;> omega
+  · intro hw
+    exact watchStep_winited cfg _ _ _ o hw
+
+
+theorem exitE_W (cfg : ECfg) (hp : PlainW cfg) (k : Kind) (s2 w2 : ESt) (d tl2 f t0 t1 : Nat) (wr : Bool)
+    (F : EFrame) (rest : List EFrame) (o : Obs)
+    (hb : F.b = plainFrame k f t0 d) (hev : ∀ e ∈ F.evs, e.time = t0)
+    (hfr : s2.frames = withW F wr :: rest) (hg : GoodW s2 (d + 1) tl2) (hsw : SameWatch s2 w2)
+    (ht0 : t0 ≤ tl2) (ht : tl2 + 2 ≤ t1) (hroom : s2.pend.length + nsrc cfg ≤ MAX_EVENT)
+    (hinit : cfg.watch = true → s2.winited = true)
+    (hwr : wr = true → markToE rest = rest) :
+    (exitE cfg s2 t1 o).out =
+      s2.out ++ owed (withW F wr :: rest) s2.pend ++
+        (wEvents cfg w2 (exitFrame cfg F t1 d o).b d o).map .event ++ exitOut cfg F t1 d o ∧
+    (exitE cfg s2 t1 o).frames = markToE rest ∧
+    (exitE cfg s2 t1 o).pend = [] ∧
+    SameWatch (exitE cfg s2 t1 o) (wNext cfg w2 (exitFrame cfg F t1 d o).b d o) ∧
+    GoodW (exitE cfg s2 t1 o) d t1 ∧
+    (cfg.watch = true → (exitE cfg s2 t1 o).winited = true) := by
+  have hB := hg.b
+  have hrest : NoSkipE rest := fun g hg' => hB.noskip g (by simp [hfr, hg'])
+  have hlen : rest.length = d := by simpa [hfr] using hB.len
+  have ht2 : ¬ t1 = 0 := by omega
+  have hst : F.b.start = t0 := by rw [hb]; rfl
+  have hev' : ∀ e ∈ F.evs, e.time = F.b.start := by rw [hst]; exact hev
+  have hEE := entryEvs_exitFrame cfg F t1 d o hev' (by omega) ht2
+  have hEF := entryEvs_of_all F hev'
+  have hnr : (withW F wr).b.norecord = false := by simp [withW, hb, plainFrame]
+  have hu := exitE_T_unfold cfg s2 (withW F wr) rest t1 o hfr hB.over hnr hB.en hB.ftime
+  have hX : exitArea cfg (setEnd (withW F wr) t1) (rest.length + 1) o = withW (exitFrame cfg F t1 d o) wr := by
+    rw [setEnd_withW, exitArea_withW, hlen]; rfl
+  rw [hX] at hu
+  have hXb := exitArea_b cfg (setEnd F t1) (d + 1) o
+  have hrec := exitFinish_record cfg (exitBase s2 (setEnd (withW F wr) t1) rest) (setEnd (withW F wr) t1)
+    (withW (exitFrame cfg F t1 d o) wr) rest cfg.base.threshold (!(withW F wr).b.cyg && (withW F wr).retFl) o
+    (by simp [hp.thr, hst]; omega) hp.t.caller
+  rw [hrec] at hu
+  -- the watch events of the exit hook
+  have hht : hookTime (withW (exitFrame cfg F t1 d o) wr).b = hookTime (exitFrame cfg F t1 d o).b := rfl
+  rw [watchStep_hookTime cfg _ _ _ rest.length o hht, hlen] at hu
+  obtain ⟨WX, a1, a2, a3⟩ := watchStep_room cfg (exitBase s2 (setEnd (withW F wr) t1) rest) { w2 with pend := [] }
+    (exitFrame cfg F t1 d o).b d o ⟨hsw.1, hsw.2, hsw.3, hsw.4⟩ hroom (nsrc_room cfg _ hroom)
+  obtain ⟨hs, _⟩ := watchStep_spec cfg (exitBase s2 (setEnd (withW F wr) t1) rest) (exitFrame cfg F t1 d o).b d o
+  have a1' : (watchStep cfg (exitBase s2 (setEnd (withW F wr) t1) rest) (exitFrame cfg F t1 d o).b d o).pend =
+      s2.pend ++ WX := a1
+  have hWX : wEvents cfg w2 (exitFrame cfg F t1 d o).b d o = WX := by unfold wEvents; rw [a2]; rfl
+  have hXend : (exitFrame cfg F t1 d o).b.endT = t1 := by unfold exitFrame; rw [hXb.1]; rfl
+  have hXst : (exitFrame cfg F t1 d o).b.start = t0 := by unfold exitFrame; rw [hXb.1]; exact hst
+  have hWXt : ∀ e ∈ WX, e.time + 1 = t1 := by
+    intro e he
+    by_cases hw : cfg.watch = true
+    · have h1 := (wEvents_time cfg w2 (exitFrame cfg F t1 d o).b d o e (by rw [hWX]; exact he)).1
+      have hwi : w2.winited = true := by rw [← hsw.1]; exact hinit hw
+      have h3 : (t1 != 0) = true := by simp; omega
+      simp [watchTime, hookTime, hXend, hwi, h3] at h1
+      omega
+    · have := wEvents_nowatch cfg w2 (exitFrame cfg F t1 d o).b d o (by simpa using hw)
+      rw [hWX] at this; rw [this] at he; simp at he
+  obtain ⟨r1, r2, r3⟩ := recordTraceE_exit_W cfg (!(withW F wr).b.cyg && (withW F wr).retFl)
+    (withW (exitFrame cfg F t1 d o) wr) rest s2.pend WX t1 hrest
+    (by simp [withW, exitFrame, hXb.1, hb, plainFrame]) (by simp [withW, exitFrame, hXb.1, hb, plainFrame])
+    (by simpa using hXend) ht2
+    (fun e he => by have := hg.ptime e he; omega)
+    (fun e he => by have := hWXt e he; omega)
+    (by
+      intro e he g hg'
+      have h1 := hWXt e he
+      simp only [List.mem_cons] at hg'
+      rcases hg' with rfl | hg'
+      · simp only [withW_start, hXst]; omega
+      · have := hg.starts g (by simp [hfr, hg']); omega)
+  rw [a1'] at hu
+  have hmm : (if wr = true then rest else markToE rest) = markToE rest := by
+    cases wr
+    · rfl
+    · simp [hwr rfl]
+  have hEO : entryOut (exitFrame cfg F t1 d o) = entryOut F := by
+    simp [entryOut, exitFrame, hXb.1, hXb.2.1, hXb.2.2.1, entryRec]
+  have hOW : owed (withW (exitFrame cfg F t1 d o) wr :: rest) s2.pend = owed (withW F wr :: rest) s2.pend := by
+    apply owed_top_congr
+    · rfl
+    · simp [withW, Frame.skip, exitFrame, hXb.1]
+    · simp only [withW_start, hXst, hst]
+    · simp only [entryOut_withW, hEO]
+    · simp only [entryEvs_withW, hEE, hEF]
+  have r3' : (recordTraceE cfg (!(withW F wr).b.cyg && (withW F wr).retFl)
+      (withW (exitFrame cfg F t1 d o) wr :: rest) (s2.pend ++ WX)).1.tail = markToE rest := by
+    rw [r3]; simp only [withW_b_written]; exact hmm
+  -- projections of the result
+  have eRT : ∀ x, x = recordTraceE cfg (!(withW F wr).b.cyg && (withW F wr).retFl)
+      (withW (exitFrame cfg F t1 d o) wr :: rest) (s2.pend ++ WX) → True := fun _ _ => trivial
+  have e_frames : (exitE cfg s2 t1 o).frames = (recordTraceE cfg (!(withW F wr).b.cyg && (withW F wr).retFl)
+      (withW (exitFrame cfg F t1 d o) wr :: rest) (s2.pend ++ WX)).1.tail := by rw [hu]; rfl
+  have e_pend : (exitE cfg s2 t1 o).pend = (recordTraceE cfg (!(withW F wr).b.cyg && (withW F wr).retFl)
+      (withW (exitFrame cfg F t1 d o) wr :: rest) (s2.pend ++ WX)).2.1 := by rw [hu]; rfl
+  have e_out : (exitE cfg s2 t1 o).out =
+      (watchStep cfg (exitBase s2 (setEnd (withW F wr) t1) rest) (exitFrame cfg F t1 d o).b d o).out ++
+      (recordTraceE cfg (!(withW F wr).b.cyg && (withW F wr).retFl)
+        (withW (exitFrame cfg F t1 d o) wr :: rest) (s2.pend ++ WX)).2.2 := by rw [hu]; rfl
+  have e_over : (exitE cfg s2 t1 o).over =
+      (watchStep cfg (exitBase s2 (setEnd (withW F wr) t1) rest) (exitFrame cfg F t1 d o).b d o).over := by rw [hu]; rfl
+  have e_ridx : (exitE cfg s2 t1 o).recordIdx =
+      (watchStep cfg (exitBase s2 (setEnd (withW F wr) t1) rest) (exitFrame cfg F t1 d o).b d o).recordIdx := by
+    rw [hu]; rfl
+  have e_en : (exitE cfg s2 t1 o).enabled =
+      (watchStep cfg (exitBase s2 (setEnd (withW F wr) t1) rest) (exitFrame cfg F t1 d o).b d o).enabled := by
+    rw [hu]; rfl
+  have e_filt : (exitE cfg s2 t1 o).filt =
+      (watchStep cfg (exitBase s2 (setEnd (withW F wr) t1) rest) (exitFrame cfg F t1 d o).b d o).filt := by
+    rw [hu]; rfl
+  have e_watch : SameWatch (exitE cfg s2 t1 o)
+      (watchStep cfg (exitBase s2 (setEnd (withW F wr) t1) rest) (exitFrame cfg F t1 d o).b d o) := by
+    rw [hu]; exact ⟨rfl, rfl, rfl, rfl⟩
+  have hRP : retPayload cfg (!(withW F wr).b.cyg && (withW F wr).retFl) (withW (exitFrame cfg F t1 d o) wr) =
+      retPayload cfg (!F.b.cyg && F.retFl) (exitFrame cfg F t1 d o) := rfl
+  have hER : exitRec (withW (exitFrame cfg F t1 d o) wr).b = exitRec (exitFrame cfg F t1 d o).b := rfl
+  refine ⟨?_, ?_, ?_, ?_, ?_, ?_⟩
+  · rw [e_out, hs.out, r1, hOW, hWX, exitEvs_withW, hRP, hER]
+    simp [exitOut, exitBase, List.append_assoc]
+  · rw [e_frames]; exact r3'
+  · rw [e_pend]; exact r2
+  · unfold wNext
+    exact e_watch.trans ⟨a3.1, a3.2, a3.3, a3.4⟩
+  · refine ⟨⟨?_, ?_, ?_, ?_, ?_, ?_, ?_, ?_, ?_, ?_, ?_⟩, ?_, ?_, ?_⟩
+    · rw [e_over, hs.over]; simp [exitBase, hB.over]
+    · rw [e_frames, r3', markToE_length, hlen]
+    · rw [e_ridx, hs.recordIdx]; simp [exitBase, hB.ridx]
+    · rw [e_en, hs.enabled]; simp [exitBase, hB.en]
+    · rw [e_filt, hs.filt]; simp [exitBase, withW, hb, plainFrame, hB.inc]
+    · rw [e_filt, hs.filt]; simp [exitBase, withW, hb, plainFrame, hB.outc]
+    · rw [e_filt, hs.filt]; simp [exitBase, withW, hb, plainFrame]
+    · rw [e_filt, hs.filt]; simp [exitBase, withW, hb, plainFrame]
+    · rw [e_filt, hs.filt]; simp [exitBase, withW, hb, plainFrame]
+    · rw [e_filt, hs.filt]; simp [exitBase, withW, hb, plainFrame]
+    · rw [e_frames, r3']; exact markToE_noskip rest hrest
+    · rw [e_frames, r3']
+      intro g hg'
+      obtain ⟨g', h1, h2⟩ := markToE_start rest g hg'
+      have := hg.starts g' (by simp [hfr, h1])
+      omega
+    · rw [e_pend, r2]; simp
+    · rw [e_pend, r2]; simp
+  · intro hw
+    rw [e_watch.1]
+    exact watchStep_winited cfg _ _ _ o hw
+
+
+/-! ### the specified stream with watchpoints -/
+
+def ECall.endTime : ECall → Nat
+  | .node _ _ t1 _ _ _ => t1
+
+mutual
+  /-- time of the last hook of a history (`tl` if it is empty) -/
+  def ECall.lastT : ECall → Nat
+    | .node _ _ t1 _ _ _ => t1
+  def ECalls.last (tl : Nat) : ECalls → Nat
+    | .nil => tl
+    | .cons c rest => rest.last c.lastT
+end
+
+mutual
+  /-- consecutive hooks are at least 2 ns apart; `tl` = time of the hook before the history -/
+  def ECall.spaced (tl : Nat) : ECall → Prop
+    | .node _ t0 t1 _ _ kids => tl + 2 ≤ t0 ∧ kids.spaced t0 ∧ kids.last t0 + 2 ≤ t1
+  def ECalls.spaced (tl : Nat) : ECalls → Prop
+    | .nil => True
+    | .cons c rest => c.spaced tl ∧ rest.spaced c.lastT
+end
+
+mutual
+  /-- the specified stream of a call executed at depth `d` in watch state `w`, and the watch state
+      afterwards: the watch events of the entry hook come before ENTRY (after ENTRY and its read
+      events for the thread's first observation), those of the exit hook before the diff events -/
+  def specWCall (cfg : ECfg) (k : Kind) (d : Nat) : ESt → ECall → List Out × ESt
+    | w, .node f t0 t1 oE oX kids =>
+      ((if w.winited then
+          (wEvents cfg w (entryFrame cfg k f t0 d oE).b d oE).map .event ++
+            ([entryOut (entryFrame cfg k f t0 d oE)] ++ (entryEvs (entryFrame cfg k f t0 d oE)).map .event)
+        else
+          [entryOut (entryFrame cfg k f t0 d oE)] ++ (entryEvs (entryFrame cfg k f t0 d oE)).map .event ++
+            (wEvents cfg w (entryFrame cfg k f t0 d oE).b d oE).map .event) ++
+        (specWCalls cfg k (d + 1) (wNext cfg w (entryFrame cfg k f t0 d oE).b d oE) kids).1 ++
+        (wEvents cfg (specWCalls cfg k (d + 1) (wNext cfg w (entryFrame cfg k f t0 d oE).b d oE) kids).2
+          (exitFrame cfg (entryFrame cfg k f t0 d oE) t1 d oX).b d oX).map .event ++
+        exitOut cfg (entryFrame cfg k f t0 d oE) t1 d oX,
+       wNext cfg (specWCalls cfg k (d + 1) (wNext cfg w (entryFrame cfg k f t0 d oE).b d oE) kids).2
+          (exitFrame cfg (entryFrame cfg k f t0 d oE) t1 d oX).b d oX)
+  def specWCalls (cfg : ECfg) (k : Kind) (d : Nat) : ESt → ECalls → List Out × ESt
+    | w, .nil => ([], w)
+    | w, .cons c rest =>
+      ((specWCall cfg k d w c).1 ++ (specWCalls cfg k d (specWCall cfg k d w c).2 rest).1,
+       (specWCalls cfg k d (specWCall cfg k d w c).2 rest).2)
+end
+
+mutual
+  /-- no pending-event overflow during the run: at every hook there is room for one event per source -/
+  def roomCall (cfg : ECfg) (k : Kind) : ESt → ECall → Prop
+    | s, .node f t0 _ oE _ kids =>
+      s.pend.length + nsrc cfg ≤ MAX_EVENT ∧ roomCalls cfg k (entryE cfg k s f t0 oE).1 kids ∧
+      (runECalls cfg k (entryE cfg k s f t0 oE).1 kids).pend.length + nsrc cfg ≤ MAX_EVENT
+  def roomCalls (cfg : ECfg) (k : Kind) : ESt → ECalls → Prop
+    | _, .nil => True
+    | s, .cons c rest => roomCall cfg k s c ∧ roomCalls cfg k (runECall cfg k s c) rest
+end
+
+theorem owed_written (top : EFrame) (rest : List EFrame) (p : List Ev) (h : top.b.written = true) :
+    owed (top :: rest) p = p.map .event := by
+  simp [owed, flushBelowE, h]
+
+theorem watchTime_entry (k : Kind) (f t0 d : Nat) (b : Bool) :
+    watchTime (plainFrame k f t0 d) b = (if b then t0 - 1 else t0 + 1) := by
+  cases b <;> simp [watchTime, hookTime, plainFrame]
+
+
+mutual
+theorem spaced_call_le : ∀ (c : ECall) (tl : Nat), c.spaced tl → tl ≤ c.lastT
+  | .node f t0 t1 oE oX kids, tl, h => by
+    simp only [ECall.spaced] at h
+    have := spaced_calls_le kids t0 h.2.1
+    simp only [ECall.lastT]; omega
+theorem spaced_calls_le : ∀ (cs : ECalls) (tl : Nat), cs.spaced tl → tl ≤ cs.last tl
+  | .nil, tl, _ => by simp [ECalls.last]
+  | .cons c rest, tl, h => by
+    simp only [ECalls.spaced] at h
+    have h1 := spaced_call_le c tl h.1
+    have h2 := spaced_calls_le rest c.lastT h.2
+    simp only [ECalls.last]; omega
+end
+
+mutual
+theorem emitW_call (cfg : ECfg) (hp : PlainW cfg) (k : Kind) :
+    ∀ (c : ECall) (s w : ESt) (d tl : Nat), GoodW s d tl → SameWatch s w →
+      d + c.height ≤ cfg.base.maxStack → d + c.height ≤ cfg.base.depthOpt → c.spaced tl → roomCall cfg k s c →
+      (runECall cfg k s c).out = s.out ++ owed s.frames s.pend ++ (specWCall cfg k d w c).1 ∧
+      (runECall cfg k s c).frames = markToE s.frames ∧
+      (runECall cfg k s c).pend = [] ∧
+      SameWatch (runECall cfg k s c) (specWCall cfg k d w c).2 ∧
+      GoodW (runECall cfg k s c) d c.lastT ∧
+      (cfg.watch = true → (runECall cfg k s c).winited = true)
+  | .node f t0 t1 oE oX kids, s, w, d, tl, hg, hsw, hm, hd, hsp, hr => by
+    simp only [ECall.height] at hm hd
+    simp only [ECall.spaced] at hsp
+    simp only [roomCall] at hr
+    obtain ⟨e1, e2, e3, e4, e5, e6, e7⟩ := entryE_W cfg hp k s w d tl f t0 oE hg hsw (by omega) (by omega) hsp.1 hr.1
+    have hk := emitW_calls cfg hp k kids (entryE cfg k s f t0 oE).1
+      (wNext cfg w (entryFrame cfg k f t0 d oE).b d oE) (d + 1) t0 e6 e5 (by omega) (by omega) hsp.2.1 hr.2.1
+    have hFb := entryFrame_b cfg k f t0 d oE
+    have hFev := entryFrame_evs_time cfg k f t0 d oE
+    have hFw : (entryFrame cfg k f t0 d oE).b.written = false := by rw [hFb]; rfl
+    have hFs : (entryFrame cfg k f t0 d oE).b.skip = false := by rw [hFb]; rfl
+    have hFst : (entryFrame cfg k f t0 d oE).b.start = t0 := by rw [hFb]; rfl
+    have hle := spaced_calls_le kids t0 hsp.2.1
+    -- what is owed after the entry hook
+    have hWEt : ∀ e ∈ wEvents cfg w (entryFrame cfg k f t0 d oE).b d oE,
+        e.time = (if w.winited then t0 - 1 else t0 + 1) := by
+      intro e he
+      rw [(wEvents_time cfg w _ d oE e he).1, hFb, watchTime_entry]
+    have hOE := owed_entry s.frames s.pend (wEvents cfg w (entryFrame cfg k f t0 d oE).b d oE)
+      (entryFrame cfg k f t0 d oE) t0 w.winited hFw hFs hFst
+      (fun e he => by have := hg.ptime e he; omega) hWEt
+      (fun g hg' => by have := hg.starts g hg'; omega) (by omega)
+    simp only [runECall, e1, ↓reduceIte]
+    cases kids with
+    | nil =>
+      simp only [runECalls] at hr ⊢
+      obtain ⟨x1, x2, x3, x4, x5, x6⟩ := exitE_W cfg hp k (entryE cfg k s f t0 oE).1
+        (wNext cfg w (entryFrame cfg k f t0 d oE).b d oE) d t0 f t0 t1 false
+        (entryFrame cfg k f t0 d oE) s.frames oX hFb hFev (by rw [e3, withW_self _ _ hFw]) e6 e5
+        (by omega) (by simpa [ECalls.last] using hsp.2.2) hr.2.2 e7 (by simp)
+      refine ⟨?_, x2, x3, ?_, ?_, x6⟩
+      · rw [x1, e2, e4, withW_self _ _ hFw, hOE]
+        simp [specWCall, specWCalls, List.append_assoc]
+      · simpa [specWCall, specWCalls] using x4
+      · simpa [ECall.lastT] using x5
+    | cons c rest =>
+      obtain ⟨k1, k2, k3, k4, k5, k6⟩ := hk
+      simp only at k1 k2 k3
+      rw [e3, markToE_cons_unwritten _ _ hFw] at k2
+      obtain ⟨x1, x2, x3, x4, x5, x6⟩ := exitE_W cfg hp k
+        (runECalls cfg k (entryE cfg k s f t0 oE).1 (.cons c rest))
+        (specWCalls cfg k (d + 1) (wNext cfg w (entryFrame cfg k f t0 d oE).b d oE) (.cons c rest)).2
+        d ((ECalls.cons c rest).last t0) f t0 t1 true
+        (entryFrame cfg k f t0 d oE) (markToE s.frames) oX hFb hFev k2 k5 k4
+        hle hsp.2.2 hr.2.2 (fun hw => k6 hw (e7 hw)) (fun _ => markToE_markToE _)
+      refine ⟨?_, by rw [x2, markToE_markToE], x3, ?_, ?_, x6⟩
+      · rw [x1, k1, k3, e2, e3, e4, hOE, owed_written _ _ _ (by simp)]
+        simp [specWCall, List.append_assoc]
+      · simpa [specWCall] using x4
+      · simpa [ECall.lastT] using x5
+theorem emitW_calls (cfg : ECfg) (hp : PlainW cfg) (k : Kind) :
+    ∀ (cs : ECalls) (s w : ESt) (d tl : Nat), GoodW s d tl → SameWatch s w →
+      d + cs.height ≤ cfg.base.maxStack → d + cs.height ≤ cfg.base.depthOpt → cs.spaced tl → roomCalls cfg k s cs →
+      (runECalls cfg k s cs).out =
+        s.out ++ (match cs with | .nil => [] | .cons _ _ => owed s.frames s.pend) ++ (specWCalls cfg k d w cs).1 ∧
+      (runECalls cfg k s cs).frames = (match cs with | .nil => s.frames | .cons _ _ => markToE s.frames) ∧
+      (runECalls cfg k s cs).pend = (match cs with | .nil => s.pend | .cons _ _ => []) ∧
+      SameWatch (runECalls cfg k s cs) (specWCalls cfg k d w cs).2 ∧
+      GoodW (runECalls cfg k s cs) d (cs.last tl) ∧
+      (cfg.watch = true → s.winited = true → (runECalls cfg k s cs).winited = true)
+  | .nil, s, w, d, tl, hg, hsw, _, _, _, _ => by
+    simp [runECalls, specWCalls, ECalls.last, hg, hsw]
+  | .cons c rest, s, w, d, tl, hg, hsw, hm, hd, hsp, hr => by
+    simp only [ECalls.height] at hm hd
+    simp only [ECalls.spaced] at hsp
+    simp only [roomCalls] at hr
+    obtain ⟨c1, c2, c3, c4, c5, c6⟩ := emitW_call cfg hp k c s w d tl hg hsw (by omega) (by omega) hsp.1 hr.1
+    obtain ⟨r1, r2, r3, r4, r5, r6⟩ := emitW_calls cfg hp k rest (runECall cfg k s c) (specWCall cfg k d w c).2 d
+      c.lastT c5 c4 (by omega) (by omega) hsp.2 hr.2
+    simp only [runECalls]
+    refine ⟨?_, ?_, ?_, ?_, ?_, ?_⟩
+    · rw [r1, c1]
+      cases rest with
+      | nil => simp [specWCalls]
+      | cons c' r' => simp [specWCalls, c2, c3, owed_marked]
+    · rw [r2]
+      cases rest with
+      | nil => simp [c2]
+      | cons c' r' => simp [c2, markToE_markToE]
+    · rw [r3]
+      cases rest with
+      | nil => simp [c3]
+      | cons c' r' => simp
+    · simpa [specWCalls] using r4
+    · simpa [ECalls.last] using r5
+    · intro hw _
+      cases rest with
+      | nil => simpa [runECalls] using c6 hw
+      | cons c' r' => exact r6 hw (c6 hw)
+end
+
 end Uft.Events
